@@ -190,6 +190,36 @@ class ContractMixin:
             self.depth -= 1
             self.in_clause -= 1
 
+    def eval_hint(self, fnode, globs, env):
+        """evaluate a hint (a function that calls instances of proved lemmas).  A hint parameter named `rho` that
+        the caller cannot supply stands for an arbitrary valuation: the hint is evaluated on a fresh constant and
+        the facts it yields (lemma instances, valid for every valuation) are assumed universally closed over it."""
+        params = [a.arg for a in fnode.args.args]
+        if 'rho' in params and 'rho' not in env:
+            from .classtable import TAbs
+            ty = TAbs('Env')
+            rho = z3.Const(self.ex.fresh_name('rho!h'), ty.z3sort())
+            env = dict(env)
+            env['rho'] = SV(rho, ty)
+            ex = self.ex
+            npc = len(ex.st.pc)
+            ex.nofork += 1
+            try:
+                self.eval_clause(fnode, globs, {p_: env[p_] for p_ in params})
+                facts = list(ex.st.pc[npc:])
+            except NeedFork:
+                raise Untranslatable(f'hint {fnode.name} over a valuation forks')
+            finally:
+                ex.nofork -= 1
+                del ex.st.pc[npc:]
+            for f in facts:
+                if any(v.eq(rho) for v in z3util.get_vars(f)):
+                    ex.assume(z3.ForAll([rho], f))
+                else:
+                    ex.assume(f)
+            return
+        self.eval_clause(fnode, globs, {p_: env[p_] for p_ in params})
+
     def clause_env(self, clause, env):
         params = [a.arg for a in clause.node.args.args]
         out = {}
